@@ -874,6 +874,7 @@ def _elementwise_rules(prog, rep, rules):
             raise AnalysisError(f"{fi.name}: membership test not found")
         ok_member = src(inner[0].test) == f"{var}.name == {fi.node.args.args[1].arg}.name"
         rep.ob("R02.5", fi.name, ok_member, "membership by variable name" if ok_member else f"membership test is `{src(inner[0].test)}`", loc=f"{fi.module.rel}:{inner[0].lineno}", detail="membership")
+        n_terms = 0
         for conds, assigns, res, node in paths(inner[0].body):
             if res is None or isinstance(res, tuple):
                 continue
@@ -911,7 +912,11 @@ def _elementwise_rules(prog, rep, rules):
             except Untranslatable as e:
                 raise AnalysisError(f"{fi.name}[{key}]: {e}")
             ok = got.eq(want)
+            n_terms += 1
             rep.ob("R02.5", f"{fi.name}[{key}]", ok, f"element term = D f ({key})" if ok else f"element term {got.key()[:80]} is not the derivative {want.key()[:80]}", loc=f"{fi.module.rel}:{node.lineno}", detail="element-term")
+        if n_terms == 0:
+            rets = [src(r.value)[:60] for r in ast.walk(inner[0]) if isinstance(r, ast.Return) and r.value is not None]
+            rep.undecided(f"{fi.name}: the member branch answers `{rets[0] if rets else '?'}` without a per-{'exponent' if kind == 'VectorPowerSum' else 'operator'} case this rule reads: whether that is the derivative of each element is not decided")
 
 
 def _dot_partition(prog, rep, fi):
